@@ -1,0 +1,226 @@
+//! Verification hooks for `connection.rs` (compiled only with `--cfg scylla_verif`).
+//!
+//! Child module of `connection`, so it can reach the private stream-id bookkeeping and the
+//! router. It only wraps existing items; it contains no driver logic of its own.
+
+use super::*;
+
+/// C02/C10: `ResponseHandlerMap` with opaque handler tokens (the request id).
+pub struct StreamMap {
+    map: ResponseHandlerMap,
+}
+
+#[derive(Debug, PartialEq, Eq)]
+pub enum Lookup {
+    Handler(u64),
+    Orphaned,
+    Missing,
+}
+
+impl StreamMap {
+    #[expect(clippy::new_without_default)]
+    pub fn new() -> Self {
+        Self {
+            map: ResponseHandlerMap::new(),
+        }
+    }
+
+    pub fn allocate(&mut self, request_id: u64) -> Option<i16> {
+        let (response_sender, _receiver) = oneshot::channel();
+        self.map
+            .allocate(ResponseHandler {
+                response_sender,
+                request_id,
+            })
+            .ok()
+    }
+
+    pub fn orphan(&mut self, request_id: u64) {
+        self.map.orphan(request_id)
+    }
+
+    pub fn lookup(&mut self, stream_id: i16) -> Lookup {
+        match self.map.lookup(stream_id) {
+            HandlerLookupResult::Handler(h) => Lookup::Handler(h.request_id),
+            HandlerLookupResult::Orphaned => Lookup::Orphaned,
+            HandlerLookupResult::Missing => Lookup::Missing,
+        }
+    }
+
+    /// `(stream id, request id)` of every handler, sorted by stream id.
+    pub fn into_handlers(self) -> Vec<(i16, u64)> {
+        let mut v: Vec<(i16, u64)> = self
+            .map
+            .into_handlers()
+            .into_iter()
+            .map(|(s, h)| (s, h.request_id))
+            .collect();
+        v.sort_unstable();
+        v
+    }
+}
+
+/// C02: the bare `StreamIdSet` bitmap.
+pub struct StreamIds(StreamIdSet);
+
+impl StreamIds {
+    #[expect(clippy::new_without_default)]
+    pub fn new() -> Self {
+        Self(StreamIdSet::new())
+    }
+    pub fn allocate(&mut self) -> Option<i16> {
+        self.0.allocate()
+    }
+    pub fn free(&mut self, stream_id: i16) {
+        self.0.free(stream_id)
+    }
+}
+
+/// A request with an arbitrary body, sent with the QUERY opcode.
+struct RawRequest(Vec<u8>);
+
+impl crate::frame::request::SerializableRequest for RawRequest {
+    const OPCODE: crate::frame::request::RequestOpcode =
+        crate::frame::request::RequestOpcode::Query;
+
+    fn serialize(
+        &self,
+        buf: &mut Vec<u8>,
+    ) -> Result<(), crate::frame::frame_errors::CqlRequestSerializationError> {
+        buf.extend_from_slice(&self.0);
+        Ok(())
+    }
+}
+
+pub struct RawResponse {
+    pub stream: i16,
+    pub flags: u8,
+    pub opcode: u8,
+    pub body: Vec<u8>,
+}
+
+/// The `HostConnectionConfig` used by the crate's own tests (`Default` is `cfg(test)` only).
+pub(crate) fn host_connection_config() -> HostConnectionConfig {
+    HostConnectionConfig {
+        local_ip_address: None,
+        shard_aware_local_port_range: ShardAwarePortRange::EPHEMERAL_PORT_RANGE,
+        compression: None,
+        tcp_socket_options: TcpSocketOptions::default(),
+        timestamp_generator: None,
+        event_sender: None,
+        tls_config: None,
+        connect_timeout: std::time::Duration::from_secs(5),
+        default_consistency: Default::default(),
+        authenticator: None,
+        address_translator: None,
+        write_coalescing_delay: Some(WriteCoalescingDelay::SmallNondeterministic),
+        keepalive_interval: None,
+        keepalive_timeout: None,
+        tablet_sender: None,
+        identity: SelfIdentity::default(),
+    }
+}
+
+fn broken_kind(err: &BrokenConnectionError) -> String {
+    match err.downcast_ref::<BrokenConnectionErrorKind>() {
+        Some(kind) => match kind {
+            BrokenConnectionErrorKind::KeepaliveTimeout(_) => "KeepaliveTimeout",
+            BrokenConnectionErrorKind::KeepaliveRequestError(_) => "KeepaliveRequestError",
+            BrokenConnectionErrorKind::FrameHeaderParseError(_) => "FrameHeaderParseError",
+            BrokenConnectionErrorKind::CqlEventHandlingError(_) => "CqlEventHandlingError",
+            BrokenConnectionErrorKind::UnexpectedStreamId(_) => "UnexpectedStreamId",
+            BrokenConnectionErrorKind::WriteError(_) => "WriteError",
+            BrokenConnectionErrorKind::TooManyOrphanedStreamIds(_) => "TooManyOrphanedStreamIds",
+            BrokenConnectionErrorKind::ChannelError => "ChannelError",
+            #[allow(unreachable_patterns)]
+            _ => "OtherBrokenKind",
+        }
+        .to_owned(),
+        None => "UnknownBroken".to_owned(),
+    }
+}
+
+/// C02/C10: the real router (reader / writer / orphaner / keepaliver) running over an arbitrary
+/// byte stream, with requests submitted through the real `RouterHandle::send_request`.
+pub struct RawConnection {
+    handle: Arc<RouterHandle>,
+    _worker: RemoteHandle<()>,
+}
+
+impl RawConnection {
+    /// Must be called inside a tokio runtime. The returned receiver yields the label of the
+    /// error that broke the connection.
+    pub fn spawn<S>(
+        stream: S,
+        keepalive_interval: Option<Duration>,
+        keepalive_timeout: Option<Duration>,
+        write_coalescing: bool,
+    ) -> (Self, oneshot::Receiver<String>)
+    where
+        S: AsyncRead + AsyncWrite + Send + 'static,
+    {
+        let mut config = host_connection_config();
+        config.keepalive_interval = keepalive_interval;
+        config.keepalive_timeout = keepalive_timeout;
+        if !write_coalescing {
+            config.write_coalescing_delay = None;
+        }
+        let (sender, receiver) = mpsc::channel(1024);
+        let (error_sender, error_receiver) = tokio::sync::oneshot::channel();
+        let (orphan_notification_sender, orphan_notification_receiver) = mpsc::unbounded_channel();
+        let handle = Arc::new(RouterHandle {
+            submit_channel: sender,
+            request_id_generator: AtomicU64::new(0),
+            orphan_notification_sender,
+            keepalive_hint: Notify::new(),
+        });
+        let (task, worker) = Connection::router(
+            config,
+            stream,
+            receiver,
+            error_sender,
+            orphan_notification_receiver,
+            handle.clone(),
+            SocketAddr::from(([127, 0, 0, 1], 9042)),
+        )
+        .remote_handle();
+        tokio::task::spawn(task);
+
+        let (label_sender, label_receiver) = oneshot::channel();
+        tokio::task::spawn(async move {
+            if let Ok(err) = error_receiver.await {
+                let label = match &err {
+                    ConnectionError::BrokenConnection(b) => broken_kind(b),
+                    other => format!("ConnectionError:{other}"),
+                };
+                let _ = label_sender.send(label);
+            }
+        });
+        (
+            Self {
+                handle,
+                _worker: worker,
+            },
+            label_receiver,
+        )
+    }
+
+    /// `RouterHandle::send_request` with a raw body; the error is mapped to a label.
+    pub async fn send_raw(&self, body: Vec<u8>) -> Result<RawResponse, String> {
+        match self.handle.send_request(&RawRequest(body), None, false).await {
+            Ok(resp) => Ok(RawResponse {
+                stream: resp.params.stream,
+                flags: resp.params.flags,
+                opcode: resp.opcode as u8,
+                body: resp.body.to_vec(),
+            }),
+            Err(err) => Err(match &err {
+                InternalRequestError::CqlRequestSerialization(_) => "Serialization".to_owned(),
+                InternalRequestError::BodyExtensionsParseError(_) => "BodyExtensions".to_owned(),
+                InternalRequestError::CqlResponseParseError(_) => "ResponseParse".to_owned(),
+                InternalRequestError::BrokenConnection(b) => format!("Broken:{}", broken_kind(b)),
+                InternalRequestError::UnableToAllocStreamId => "UnableToAllocStreamId".to_owned(),
+            }),
+        }
+    }
+}
